@@ -12,7 +12,10 @@ if [ -n "${VERIF_REPO:-}" ]; then
   shadow=/verif/target/shadow
   mkdir -p "$shadow"
   sed -e "s|path = \"/repo/ts-rs\"|path = \"$VERIF_REPO/ts-rs\"|" /verif/sim/Cargo.toml > "$shadow/Cargo.toml"
-  printf '\n[[bin]]\nname = "tsrs-sim"\npath = "/verif/sim/src/main.rs"\n' >> "$shadow/Cargo.toml"
+  # a snapshot of the simulator sources taken by the caller, so that edits under /verif/sim
+  # while a long tooling run is in progress cannot change what it builds
+  simsrc=${VERIF_SIM_SRC:-/verif/sim/src}
+  printf '\n[[bin]]\nname = "tsrs-sim"\npath = "%s/main.rs"\n' "$simsrc" >> "$shadow/Cargo.toml"
   [ -f "$shadow/Cargo.lock" ] || cp /repo/Cargo.lock "$shadow/Cargo.lock"
   cd "$shadow" || exit 2
   export CARGO_TARGET_DIR=/verif/target/shadow-target
